@@ -11,7 +11,7 @@ import itertools
 import z3
 
 from pyvc.core import family, resolve, Missing
-from pyvc.sym import term
+from pyvc.sym import term, SymInt, Unsupported
 from pyvc.util import script, getpriv
 from pyvc.verify import verify
 from . import irsem
@@ -114,6 +114,18 @@ def run_wasm(instrs, locals_, local_types, results=None):
         elif op in BIN_I:
             b, a = pop(I32), pop(I32)
             stack.append((I32, BIN_I[op](a, b)))
+        elif op in ("i32.shr_s", "i32.shr_u", "i32.shl"):
+            b, a = pop(I32), pop(I32)
+            kb = z3.simplify(b)
+            if not z3.is_int_value(kb):
+                raise Unsupported(f"{op} by an amount that is not a constant")
+            k = kb.as_long() % 32                      # (the shift count is taken modulo 32)
+            if op == "i32.shr_s":
+                stack.append((I32, a / z3.IntVal(2 ** k)))                       # arithmetic shift = floor division (z3 `/` on Int floors for a positive divisor)
+            elif op == "i32.shr_u":
+                stack.append((I32, wrap32(_u(a) / z3.IntVal(2 ** k))))
+            else:
+                stack.append((I32, wrap32(a * z3.IntVal(2 ** k))))
         elif op in CMP_I or op in CMP_U:
             b, a = pop(I32), pop(I32)
             stack.append((I32, irsem.b2i((CMP_I.get(op) or CMP_U[op])(a, b))))
@@ -250,13 +262,15 @@ def c06_sem(R):
                 if const_operand and k0 == "f":
                     continue
 
-                def run(ctx, opn=opn, k0=k0, k1=k1, rk=rk, const_operand=const_operand):
+                def run(ctx, opn=opn, k0=k0, k1=k1, rk=rk, const_operand=const_operand, cval=None):
                     f, bb = ir_c.fresh_function()
                     v0 = ir_c.val(bb, T(k0))
                     c = ctx.int("c")
                     ctx.assume(irsem.in_i32(c.t))
+                    if cval is not None:
+                        c = SymInt(z3.IntVal(cval))
                     if const_operand:
-                        v1 = ir.ConstantValue(T(k1), c)
+                        v1 = ir.ConstantValue(T(k1), c if cval is None else cval)
                         f.RegisterValue(v1)
                     else:
                         v1 = ir_c.val(bb, T(k1))
@@ -310,16 +324,18 @@ def c06_sem(R):
                     goals.append(("frame", z3.BoolVal(all(locs2[i] is locs[i] for i in (0, 1, 2, 3))), "other locals changed"))
                     return goals
 
-                def replay(model, clause, opn=opn, k0=k0):
+                def replay(model, clause, opn=opn, k0=k0, cval=None):
                     from .vm_c import NSL_OP, NSLT
                     iscmp = opn.startswith("CMP") or opn.startswith("LG")
-                    a, b = model.get("a", 7), model.get("b", model.get("c", 2))
+                    a, b = model.get("a", 7), (cval if cval is not None else model.get("b", model.get("c", 2)))
                     return script("""
                         import io, contextlib
                         from nsl import Compiler, LinearIR, VM
                         import wasmtime
                         src = 'export function f(%s a, %s b) -> %s { return (a %s b); }' % ({{t}}, {{t}}, {{rt}}, {{op}})
                         a, b = {{a}}, {{b}}
+                        if {{lit}}:      # the second operand is a literal of the program (b is passed too, but not used)
+                            src = 'export function f(%s a, %s b) -> %s { return (a %s %d); }' % ({{t}}, {{t}}, {{rt}}, {{op}}, b)
                         try:
                             with contextlib.redirect_stdout(io.StringIO()):
                                 r = Compiler.Compiler().Compile(src, {'wasm': True})
@@ -337,9 +353,18 @@ def c06_sem(R):
                             got = 'wasmtime: ' + str(e)[:160]
                         print(src, 'f(%r, %r): VM' % (a, b), want, 'wasm', got)
                         if got != want: print('REPLAY-CONFIRMED')
-                        """, t=NSLT[k0], rt="int" if (iscmp or k0 != "f") else "float", op=NSL_OP[opn], a=int(a) if k0 != "f" else float(a), b=int(b) if k0 != "f" else float(b), must=(clause == "translates"))
+                        """, t=NSLT[k0], rt="int" if (iscmp or k0 != "f") else "float", op=NSL_OP[opn], a=int(a) if k0 != "f" else float(a), b=int(b) if k0 != "f" else float(b), must=(clause == "translates"), lit=cval is not None and cval >= 0)
 
                 verify(R, "C06.sem.BinaryInstruction", GW + "::GenerateWasmVisitor.v_BinaryInstruction", run, replay, label=label)
+                if const_operand:
+                    # a handler may look AT a constant operand (strength reduction, immediates): the symbolic constant above covers handlers that
+                    # do not; these run the same obligation with the other operand symbolic for literal values a peephole would single out
+                    import functools
+                    for cv in (0, 1, 2, 3, 4, 8, 10, 65536, 2 ** 30, 2 ** 31 - 1, -1, -2, -4, -(2 ** 31)):
+                        if (cv == 0 and opn in ("DIV", "MOD")) or (cv < 0 and k1 == "u"):
+                            continue
+                        verify(R, "C06.sem.BinaryInstruction", GW + "::GenerateWasmVisitor.v_BinaryInstruction", functools.partial(run, cval=cv),
+                               functools.partial(replay, cval=cv), label=f"{opn},{k0}x{k1}->{rk},const={cv}")
 
     # argument loads
     for k in ("i", "f"):
